@@ -501,11 +501,15 @@ def run(chk):
             seen.add(k)
             uniq.append(b)
     rnd = random.Random(seed)
-    if tier == 'quick' and len(uniq) > 7000:
+    cap = 7000 if tier == 'quick' else 24000
+    capped = len(uniq) > cap
+    if len(uniq) > cap:
         two = [b for b in uniq if len(b['hist']) >= 2]
         one = [b for b in uniq if len(b['hist']) < 2]
         rnd.shuffle(two)
-        uniq = one + two[:7000 - len(one)]
+        rnd.shuffle(one)
+        one = one[:cap // 2]
+        uniq = one + two[:cap - len(one)]
     results = pmap(job, [b['hist'] for b in uniq], chunksize=8)
     for b, r in zip(uniq, results):
         hist = b['hist']
@@ -591,7 +595,7 @@ def run(chk):
     chk.extra['histories_rendered'] = len(rr)
     chk.extra['histories_replayed'] = len(uniq)
     chk.extra['random_histories_validated_by_tlc'] = len(lines)
-    chk.exhaustive = tier != 'quick'
+    chk.exhaustive = not capped
 
 
 def setup():
